@@ -534,7 +534,7 @@ pub fn gen_edge_cfg(t: &mut Tape) -> (Cfg, bool) {
     edge |= e(&mut c, t, "grep-separator-symbol", &["", ":", "keep", "世"], 10);
     edge |= e(&mut c, t, "grep-output-type", &["ripgrep", "classic"], 6);
     edge |= e(&mut c, t, "blame-format", &["", "{commit}", "{timestamp:<1} {author:>1.0} {commit:^1}", "{author:<100}", "{commit:>8}{commit}{commit}", "{timestamp}", "{author:.1}", "x"], 8);
-    edge |= e(&mut c, t, "blame-separator-format", &["", "{n}", "│{n:^4}│", "{n:block}", "{n:every-2}", "{n:every-1}", "{n:>100}", "none", "{n:^1}"], 8);
+    edge |= e(&mut c, t, "blame-separator-format", &["", "{n}", "│{n:^4}│", "{n:block}", "{n:every-2}", "{n:every-1}", "{n:>100}", "none", "{n:^1}", "{n:every-0}", "│{n:^4_every-0}│", "{n:every-00}", "{n:^3_every-7}"], 8);
     edge |= e(&mut c, t, "blame-palette", &["1", "red", "#000000 #111111", "1 2 3 4 5 6 7 8 9"], 8);
     edge |= e(&mut c, t, "blame-timestamp-output-format", &["%Y", "", "%s", "%Y-%m-%d %H:%M:%S %z", "%%"], 10);
     edge |= e(&mut c, t, "hyperlinks-file-link-format", &["", "{path}", "file://{path}#{line}", "x://{host}/{path}:{line}:{line}", "{", "{nope}"], 10);
